@@ -77,27 +77,30 @@ def transplant(master, mit, regs, kept, ext, eit):
     # insertion points: for each region, the kept-token ordinal that follows it
     inserts = {}  # offset in ext.src -> [texts]
     order = 0
-    for (a, b) in regs:
-        # region text including surrounding trivia on the left up to the previous token
+    for (a, b, kind) in regs:
+        if kind == "vis":
+            continue  # visibility comes with the extracted text
+        # region text, including the comments (labels) that precede it
         left_tok = a - 1
         txt_lo = master.toks[left_tok].end if left_tok >= mit.lo else master.toks[a].start
-        txt_hi = master.toks[b - 1].end
-        txt = master.src[txt_lo:txt_hi]
-        # following kept token
+        body = master.src[txt_lo:master.toks[b - 1].end]
+        txt = body + "\n"
         nxt = b
         while nxt < mit.hi and nxt not in kept_pos:
             nxt += 1
         prv = a - 1
         while prv >= mit.lo and prv not in kept_pos:
             prv -= 1
-        pos = None
-        if prv >= mit.lo and kept_pos[prv] in k2a:
+        if prv < mit.lo:
+            # leading region (attributes): goes in front of the extracted item
+            pos = ext.toks[eit.lo].start
+            txt = master.src[master.toks[a].start:master.toks[b - 1].end] + "\n"
+        elif kept_pos[prv] in k2a:
             pos = ext.toks[ekept[k2a[kept_pos[prv]]]].end
         elif nxt < mit.hi and kept_pos[nxt] in k2a:
             pos = ext.toks[ekept[k2a[kept_pos[nxt]]]].start
-            txt = master.src[master.toks[a].start:master.toks[nxt].start] if nxt < mit.hi else txt
         else:
-            # walk backwards to the nearest aligned kept token
+            # walk backwards to the nearest aligned executable token
             p = kept_pos.get(prv, -1)
             while p >= 0 and p not in k2a:
                 p -= 1
@@ -110,7 +113,7 @@ def transplant(master, mit, regs, kept, ext, eit):
     lo = ext.toks[eit.lo].start
     hi = ext.toks[eit.hi - 1].end
     # erase ext's own attribute / pub regions
-    cuts = [(ext.toks[a].start, ext.toks[b - 1].end) for a, b in eregs]
+    cuts = [(ext.toks[a].start, ext.toks[b - 1].end) for a, b, kind in eregs if kind != "vis"]
     out = []
     i = lo
     points = sorted(set(list(inserts.keys()) + [c[0] for c in cuts]))
